@@ -27,6 +27,7 @@ with bexp :=
 Inductive kind := Pub | Priv.
 Inductive exn := AssertionError | ValueError | ZeroDivisionError | TypeError | RuntimeError
                | NotImplementedError | IndexError | AttributeError | StopIteration_
+               | KeyboardInterrupt_ | SystemExit_     (* BaseExceptions that are not Exceptions (raised by the program itself: SRaise) *)
                | ModelError.      (* raised by the model itself, never by pysnark: a wire mentioning an unallocated variable *)
 
 Definition bit_length (v : Z) : Z := if v =? 0 then 0 else Z.log2 (Z.abs v) + 1.
@@ -173,7 +174,8 @@ Definition hcon (p : Z) (c : lc * lc * lc) : Z :=
   hmix (hmix (hmix 17 ((ha + hb) mod hq)) ((ha * hb) mod hq)) (hlc p y).
 Definition exn_code (e : exn) : Z :=
   match e with AssertionError => 1 | ValueError => 2 | ZeroDivisionError => 3 | TypeError => 4 | RuntimeError => 5
-             | NotImplementedError => 6 | IndexError => 7 | AttributeError => 8 | StopIteration_ => 9 | ModelError => 10 end.
+             | NotImplementedError => 6 | IndexError => 7 | AttributeError => 8 | StopIteration_ => 9 | ModelError => 10
+             | KeyboardInterrupt_ => 11 | SystemExit_ => 12 end.
 Definition hgobs (p : Z) (g : gobs) : Z :=
   let '(gd, ig, one) := g in
   hmix (hmix (hmix 23 (match gd with Some l => 1 + hlc p l | None => 0 end)) (if ig then 1 else 0)) (hlc p one).
